@@ -858,8 +858,20 @@ func Spec() *core.Spec {
 		Rule: "all programs of length 0..3 (quick) / 0..4 (thorough) over 10 stage kinds {pass, call next 2x, 3x, call next twice concurrently (hedged; judged on the multiset of events), short-circuit with response, short-circuit with error, replace message, replace context, fail after next, rewrite response} " +
 			"for the client chain (scripted server as transport), the server message chain and the server batch-item chain; every program run once alone and once from 16 goroutines sharing the chain (race detector on); " +
 			"the recorded enter/core/exit trace of every request must equal the trace of a reference interpreter, event for event. the server chains also over a core that panics, returns an error or rejects the protocol version; several clients configured from middleware slices sharing a backing array; client stages that detach a cancelled caller context or answer from a cache under an expired deadline; a message middleware substituting a message with another continuation option / version / item list, compared with a middleware-free executor given the substituted message; distinct = distinct (chain, program)",
-		Required: []string{"programs_run.client", "programs_run.server-message", "programs_run.server-batch-item", "concurrent_runs", "events", "hedged_programs_run", "programs_run.core-panic", "programs_run.core-error", "programs_run.core-version", "substituted_messages.option-changed", "substituted_messages.version-changed", "substituted_messages.retried", "detached_context_runs", "shared_option_clients"},
+		Required: []string{"programs_run.client", "programs_run.server-message", "programs_run.server-batch-item", "concurrent_runs", "events", "hedged_programs_run", "programs_run.core-panic", "programs_run.core-error", "programs_run.core-version", "substituted_messages.option-changed", "substituted_messages.version-changed", "substituted_messages.retried", "detached_context_runs", "items_with_critical_extension", "item_extension_requests", "stale_connection_calls.mode1", "stale_connection_calls.mode2", "shared_option_clients"},
 		Families: []core.Family{
+			{Name: "item-extensions", N: func(tier string) int {
+				if tier == core.Thorough {
+					return 40000
+				}
+				return 600
+			}, Run: itemExtensions},
+			{Name: "stale-connections", N: func(tier string) int {
+				if tier == core.Thorough {
+					return 4000
+				}
+				return 60
+			}, Run: staleConnections, Timeout: 60 * time.Second},
 			{Name: "detached-context", N: func(tier string) int {
 				if tier == core.Thorough {
 					return 1200
@@ -909,5 +921,186 @@ func Spec() *core.Spec {
 				}
 			}},
 		},
+	}
+}
+
+// itemExtensions: batch items carrying a message extension, some marked critical. Every executed item goes through
+// every batch-item middleware exactly once, in registration order, each receiving the item its predecessor handed on,
+// and only then reaches the core handler: a middleware that implements the extension (takes it off the item it hands
+// on) makes the item acceptable to the core; without such a stage the core refuses a critical extension.
+func itemExtensions(c *core.Ctx, r *core.Rand, i int) {
+	var mu sync.Mutex
+	var events []string
+	logf := func(format string, a ...any) {
+		mu.Lock()
+		events = append(events, fmt.Sprintf(format, a...))
+		mu.Unlock()
+	}
+	ex := kmipserver.NewBatchExecutor()
+	ex.Route(kmip.OperationActivate, kmipserver.HandleFunc(func(ctx context.Context, req *payloads.ActivateRequestPayload) (*payloads.ActivateResponsePayload, error) {
+		logf("core %s", req.UniqueIdentifier)
+		return &payloads.ActivateResponsePayload{UniqueIdentifier: req.UniqueIdentifier}, nil
+	}))
+	nStages := 1 + r.Intn(4)
+	strip := -1
+	if r.P(2, 3) {
+		strip = r.Intn(nStages) // this stage implements the vendor extension
+	}
+	for s := 0; s < nStages; s++ {
+		s := s
+		ex.BatchItemUse(func(next kmipserver.BatchItemNext, ctx context.Context, bi *kmip.RequestBatchItem) (*kmip.ResponseBatchItem, error) {
+			id := payloadID(bi.RequestPayload)
+			logf("stage%d %s ext=%v", s, id, bi.MessageExtension != nil)
+			if s == strip && bi.MessageExtension != nil {
+				cp := *bi
+				cp.MessageExtension = nil
+				return next(ctx, &cp)
+			}
+			return next(ctx, bi)
+		})
+	}
+	n := 1 + r.Intn(4)
+	m := &kmip.RequestMessage{Header: kmip.RequestHeader{ProtocolVersion: kmip.V1_4, BatchCount: int32(n)}}
+	var want []string
+	var wantOK []bool
+	for k := 0; k < n; k++ {
+		id := fmt.Sprintf("x%d-%d", i, k)
+		bi := kmip.RequestBatchItem{Operation: kmip.OperationActivate, UniqueBatchItemID: []byte{byte(k + 1)}, RequestPayload: &payloads.ActivateRequestPayload{UniqueIdentifier: id}}
+		ext, critical := r.P(2, 3), false
+		if ext {
+			critical = r.P(2, 3)
+			bi.MessageExtension = &kmip.MessageExtension{VendorIdentification: "verif", CriticalityIndicator: critical,
+				VendorExtension: ttlv.Struct{ttlv.Value{Tag: 0x540001, Value: int32(k)}}}
+			c.Count("items_with_extension", 1)
+			if critical {
+				c.Count("items_with_critical_extension", 1)
+			}
+		}
+		m.BatchItem = append(m.BatchItem, bi)
+		has := ext
+		for s := 0; s < nStages; s++ {
+			want = append(want, fmt.Sprintf("stage%d %s ext=%v", s, id, has))
+			if s == strip {
+				has = false
+			}
+		}
+		ok := !(has && critical)
+		if ok {
+			want = append(want, "core "+id)
+		}
+		wantOK = append(wantOK, ok)
+	}
+	var resp *kmip.ResponseMessage
+	if p, pv, st := core.Guard(func() { resp = ex.HandleRequest(context.Background(), m) }); p {
+		c.Violation(core.PanicSig(pv, st), fmt.Sprintf("HandleRequest panicked: %v", pv), map[string]any{"stack": st})
+		return
+	}
+	c.Count("item_extension_requests", 1)
+	c.Distinct(core.Hash64("item-ext", strings.Join(stripNumAll(want), ";")))
+	label := fmt.Sprintf("%d item stages (stage %d takes the extension off; -1 = none), %d items", nStages, strip, n)
+	if fmt.Sprint(events) != fmt.Sprint(want) {
+		c.Violation("C19:item-chain:extension-items:stage-executions", fmt.Sprintf("batch items with message extensions (%s): the stages ran as %v, expected %v", label, events, want), nil)
+		return
+	}
+	if resp == nil || len(resp.BatchItem) != n {
+		c.Violation("C19:item-chain:extension-items:response", fmt.Sprintf("batch items with message extensions (%s): no response item per request item", label), nil)
+		return
+	}
+	for k, ok := range wantOK {
+		got := resp.BatchItem[k].ResultStatus == kmip.ResultStatusSuccess
+		if got != ok {
+			c.Violation("C19:item-chain:extension-items:outcome", fmt.Sprintf("batch items with message extensions (%s): item %d success=%v, expected %v (the core sees the item handed on by the last stage)", label, k+1, got, ok), nil)
+			return
+		}
+	}
+}
+
+func stripNumAll(ev []string) []string {
+	out := make([]string, len(ev))
+	for i, e := range ev {
+		out[i] = stripNum(e)
+	}
+	return out
+}
+
+// staleConnections (client chain): the server ends the connection between calls, or after it has read a request, so that
+// the transport meets a stale connection and redials / resends. That is the transport's own business: one Roundtrip in
+// which every middleware calls its continuation once runs every stage exactly once, in registration order.
+func staleConnections(c *core.Ctx, r *core.Rand, i int) {
+	var smu sync.Mutex
+	dropOnce := map[string]bool{}
+	closeAfter := map[string]bool{}
+	srv := script.NewServer(func(rx script.Received, conn *memnet.Conn) *kmip.ResponseMessage {
+		id := ""
+		if len(rx.Msg.BatchItem) > 0 {
+			id = payloadID(rx.Msg.BatchItem[0].RequestPayload)
+		}
+		smu.Lock()
+		drop := dropOnce[id]
+		delete(dropOnce, id)
+		after := closeAfter[id]
+		delete(closeAfter, id)
+		smu.Unlock()
+		if drop {
+			conn.Close() // read, not answered: the client sees the end of the stream while it waits
+			return nil
+		}
+		resp := script.OK(rx.Msg, func(int, *kmip.RequestBatchItem) kmip.OperationPayload {
+			return &payloads.ActivateResponsePayload{UniqueIdentifier: id}
+		})
+		if after {
+			conn.Write(ttlv.MarshalTTLV(resp))
+			conn.Close() // answered, then closed: the NEXT call meets a stale connection
+			return nil
+		}
+		return resp
+	})
+	defer srv.Close()
+	var mu sync.Mutex
+	var trace []string
+	nStages := 1 + r.Intn(4)
+	var mws []kmipclient.Middleware
+	var want []string
+	for s := 0; s < nStages; s++ {
+		name := fmt.Sprintf("stage%d", s)
+		want = append(want, name)
+		mws = append(mws, func(next kmipclient.Next, ctx context.Context, m *kmip.RequestMessage) (*kmip.ResponseMessage, error) {
+			mu.Lock()
+			trace = append(trace, name)
+			mu.Unlock()
+			return next(ctx, m)
+		})
+	}
+	cl, err := kmipclient.Dial("mem", kmipclient.WithDialerUnsafe(func(context.Context) (net.Conn, error) { return srv.L.Dial() }), kmipclient.EnforceVersion(kmip.V1_4), kmipclient.WithMiddlewares(mws...))
+	if err != nil {
+		panic("harness: dial: " + err.Error())
+	}
+	defer cl.Close()
+	for k := 0; k < 6; k++ {
+		id := fmt.Sprintf("st%d-%d", i, k)
+		mode := r.Intn(3)
+		smu.Lock()
+		switch mode {
+		case 1:
+			dropOnce[id] = true
+		case 2:
+			closeAfter[id] = true
+		}
+		smu.Unlock()
+		mu.Lock()
+		trace = nil
+		mu.Unlock()
+		_, err := cl.Roundtrip(context.Background(), reqMsg(id))
+		mu.Lock()
+		got := append([]string{}, trace...)
+		mu.Unlock()
+		c.Count("stale_connection_calls", 1)
+		c.Count(fmt.Sprintf("stale_connection_calls.mode%d", mode), 1)
+		c.Distinct(core.Hash64("stale", fmt.Sprint(nStages, mode, k)))
+		if fmt.Sprint(got) != fmt.Sprint(want) {
+			c.Violation("C19:client:stages-rerun-by-the-transport", fmt.Sprintf("call %d (server %s; result error: %v): the %d registered stages ran as %v for ONE Roundtrip", k+1,
+				[]string{"answers", "closes the connection after reading the request", "answers and closes the connection"}[mode], err, nStages, got), nil)
+			return
+		}
 	}
 }
